@@ -230,6 +230,59 @@ async def _stall_case(loop, sock, direction, chunks_gaps):
     return out
 
 
+async def _throttled_case(loop, sock, idle, limit, direction):
+    """a peer that NEVER stalls, on a server whose own speed limit makes it wait longer than the timeouts between two
+    blocks: the waiting is the server's, not the peer's - the transfer completes and the session goes on"""
+    # a block takes 1 s at this limit; the few bytes of the control channel are not held up noticeably
+    kw = {"socket_timeout": sock, "idle_timeout": idle, "block_size": limit}
+    users = [W.UserSpec(None, None, **({"read_speed_limit_per_connection": limit} if direction == "stor" else {"write_speed_limit_per_connection": limit}))]
+    data = bytes(range(256)) * (4 * limit // 256)
+    wd = W.World(loop, users, server_kwargs=kw)
+    await wd.start()
+    out = {}
+    try:
+        wd.set_tree(S.TREE + [(("big.bin",), data)])
+        raw = await wd.raw_client()
+        if direction != "stor":
+            raw_limit = None
+        await W.run_line(wd, raw, b"USER anonymous")
+        await W.run_line(wd, raw, b"EPSV")
+        await W.data_connect(wd, raw)
+        t0 = loop.time()
+        dr, dw = raw.data
+        n0 = len(raw.replies)
+        if direction == "stor":
+            raw.send_raw(b"STOR up.bin\r\n")
+            await loop.settle()
+            dw.write(data)  # at once, and then the orderly end: this peer never makes the server wait
+            dw.close()
+            got = None
+        else:
+            raw.send_raw(b"RETR big.bin\r\n")
+            await loop.settle()
+            got = await asyncio.wait_for(dr.read(), 600)  # reads whatever comes, as it comes
+            dw.close()
+        raw.data = None
+        waited = 0.0
+        while waited < 60 and not any(int(x) >= 200 for x, _ in raw.replies[n0:]) and not raw.eof:
+            await asyncio.sleep(0.5)
+            waited += 0.5
+        await loop.settle()
+        codes = [int(c) for c, _ in raw.replies[n0:]]
+        follow = None
+        if not raw.eof:
+            follow, _, _, _ = await W.run_line(wd, raw, b"PWD")
+        out = {"codes": codes, "took": loop.time() - t0, "got": got, "stored": wd.tree(), "eof": raw.eof, "follow": follow}
+        raw.close()
+        await loop.settle()
+    finally:
+        try:
+            await wd.stop()
+        except Exception:
+            wd.finish()
+    return out
+
+
 async def _ctrl_unread_case(loop, sock, idle, n_cmds):
     """the peer keeps sending commands but stops READING the control connection: replies pile up until the
     server's reply writer blocks; with socket_timeout set the session must be released that long after"""
@@ -273,6 +326,8 @@ def _job(args):
             return simnet.run(_wait_case, *args[1:])
         if kind == "ctrl":
             return simnet.run(_ctrl_unread_case, *args[1:])
+        if kind == "throttled":
+            return simnet.run(_throttled_case, *args[1:])
         return simnet.run(_stall_case, *args[1:])
     except BaseException as e:  # noqa
         return "HARNESS-ERROR %s: %s" % (type(e).__name__, e)
@@ -302,6 +357,10 @@ def gen(ctx):
     for sock in (None, 0, 2):
         for idle in (None, 30, 3):
             jobs.append(("ctrl", sock, idle, 40))
+    for sock, idle in ((0.4, None), (0.4, 60), (0.9, None)):
+        for limit in (8192, 1024):
+            for direction in ("stor", "retr"):
+                jobs.append(("throttled", sock, idle, limit, direction))
     for wait in (None, 0, 1, 2.5):
         for verb in ("RETR", "STOR", "LIST", "MLSD"):
             for delta in (None, 0.25, 0.75, 1.0, 1.25, 2.25, 2.5, 2.75, 4.0):
@@ -393,6 +452,12 @@ def _run(ctx, compare=True):
                 res.oracle_failures.append({"input": inp, "what": "after the 425 the same transfer retried with a data connection gave %r, then PWD -> %r" % (o["retry"], o.get("retry_pwd")), "signature": "C16:retry-after-425-broken"})
             lines.append("timers wait %s 0 %s" % ("n" if wait is None else str(ms(wait)), "n" if delta is None else str(ms(delta))))
             expect.append((inp, got.split("@")[0] + ("@" + got.split("@")[1] if "@" in got and got.startswith("425") else "")))
+        elif j[0] == "throttled":
+            finals = [c for c in o["codes"] if c >= 200]
+            if finals != [226] or o["eof"] or o["follow"] != [257] or (j[4] == "retr" and o["got"] != bytes(range(256)) * (4 * j[3] // 256)):
+                res.oracle_failures.append({"input": inp, "what": "a %s whose peer never stalled, throttled by the server's own limit of %d B/s (socket_timeout=%r, idle_timeout=%r): replies %r after %.2f s, session %s, PWD -> %r" % (
+                    j[4].upper(), j[3], j[1], j[2], o["codes"], o["took"], "dropped" if o["eof"] else "alive", o["follow"]), "signature": "C16:dropped-while-the-server-itself-was-waiting"})
+            continue
         elif j[0] == "ctrl":
             sock, idle = j[1], j[2]
             if not o["blocked"]:
